@@ -31,7 +31,7 @@ fn unhex(s: &str) -> Vec<u8> {
 fn main() {
     let a: Vec<String> = std::env::args().collect();
     if a.len() < 3 { eprintln!("usage: replay <harness> <hex> | search <harness> <iters> <seed>"); std::process::exit(2); }
-    let find = |name: &str| vkani::table::TABLE.iter().find(|(n, _)| *n == name).map(|(_, f)| *f);
+    let find = |name: &str| vkani::table::table().into_iter().find(|(n, _)| *n == name).map(|(_, f)| f);
     panic::set_hook(Box::new(|_| {}));
     match a[1].as_str() {
         "replay" => {
